@@ -159,8 +159,15 @@ namespace
 void gen_xa(Ctx& c, double& x, double& a)
 {
 	Src& s = c.s;
-	int am = s.pick({5, 2, 1});
-	if(am == 0)
+	int am = s.pick({10, 4, 2, 1, 1});
+	if(am == 3)
+		a = std::pow(10.0, s.uniform(-12, -3));	  // "all a in (0,1e4]": the small end
+	else if(am == 4)
+	{	// exactly on the switch-overs
+		a = s.coin() ? 100.0 : (s.coin() ? 1.0 : (double) s.range(1, 200));
+		c.cls("a_exactly_special");
+	}
+	else if(am == 0)
 		a = std::pow(10.0, s.uniform(-3, 4));
 	else if(am == 1)
 		a = 100.0 + s.sign() * std::pow(10.0, s.uniform(-9, 0.3));	  // within ~2 of the a=100 switch-over
@@ -169,8 +176,16 @@ void gen_xa(Ctx& c, double& x, double& a)
 	if(a <= 0)
 		a = 1e-3;
 	double xmax = a + 40 * std::sqrt(a) + 40;
-	int xm		= s.pick({4, 3, 2, 1});
-	if(xm == 0)
+	int xm		= s.pick({8, 6, 4, 2, 1});
+	if(xm == 4)
+	{
+		x = a + 1.0;   // exactly on the series / continued-fraction switch, and its neighbours
+		int st = (int) s.range(-2, 2);
+		for(int i = 0; i < std::abs(st); i++)
+			x = std::nextafter(x, st > 0 ? 1e308 : 0.0);
+		c.cls("x_exactly_a_plus_1");
+	}
+	else if(xm == 0)
 		x = s.uniform(0, xmax);
 	else if(xm == 1)
 		x = (a + 1.0) + s.sign() * 1e-3 * (1 + a) * std::pow(10.0, s.uniform(-6, 0));	// both sides of x=a+1
@@ -206,7 +221,10 @@ VCLAUSE(incomplete_gamma, 20, 30000, 800000, "point within the switch-over neigh
 	long double rp = ref::gamma_p(a, x), rq = ref::gamma_q(a, x);
 	double acc	   = a <= 100.0 ? 1e-12 : 1e-3;
 	VCHECK(P >= 0.0 && P <= 1.0 && Q >= 0.0 && Q <= 1.0, "P=" << P << " Q=" << Q << " outside [0,1] at x=" << x << " a=" << a);
-	VCLOSE(c, "P_plus_Q", P + Q, 1.0, 4 * EPS, "P+Q at x=" << x << " a=" << a);
+	// "sum to one": to the accuracy both are promised to (an implementation is free to compute P and Q independently); exact complementarity is counted
+	VCLOSE(c, "P_plus_Q", P + Q, 1.0, 2 * acc, "P+Q at x=" << x << " a=" << a);
+	if(std::fabs(P + Q - 1.0) <= 4 * EPS)
+		c.cls("P_plus_Q_exact_to_rounding");
 	VCLOSE(c, a <= 100 ? "P_vs_reference_a_le_100" : "P_vs_reference_a_gt_100", P, (double) rp, acc, "GammaP(" << x << "," << a << ")");
 	VCLOSE(c, a <= 100 ? "Q_vs_reference_a_le_100" : "Q_vs_reference_a_gt_100", Q, (double) rq, acc, "GammaQ(" << x << "," << a << ")");
 	// monotone in x: a second point x2 > x, close (crossing the switch-over when near it) or far
@@ -214,12 +232,21 @@ VCLAUSE(incomplete_gamma, 20, 30000, 800000, "point within the switch-over neigh
 	double x2 = x + dx, P2 = 0, Q2 = 0;
 	VMUST_RETURN("GammaP/GammaQ at the second point", P2 = GammaP(x2, a); Q2 = GammaQ(x2, a));
 	VCHECK(P2 >= P - 2 * acc && Q2 <= Q + 2 * acc, "not monotone in x within the accuracy class: P(" << x << ")=" << P << " P(" << x2 << ")=" << P2 << " a=" << a);
+	// "monotone in x" on its own, beyond what the accuracy class implies: a decrease may only be rounding noise of the evaluation. Both branches
+	// for a<=100 sum a series / continued fraction to 1e-15 relative of a prefactor known to ~|log|*eps; the measured worst decrease on the repaired
+	// tree is recorded, the bound is 100 times the rounding level of the prefactor
+	double noise = 64 * EPS * (1 + std::fabs(a * std::log(std::max(x2, 1e-300)) - x2)) ;
+	c.ratio(a <= 100 ? "monotone_decrease_a_le_100/noise" : "monotone_decrease_a_gt_100/1e-9", std::max(0.0, P - P2) / (a <= 100 ? noise : 1e-9));
+	if(a <= 100)
+		VCHECK(P - P2 <= noise && Q2 - Q <= noise, "P decreases (Q increases) in x by more than rounding: P(" << x << ")=" << P << " P(" << x2 << ")=" << P2 << " a=" << a << " difference " << P - P2 << " allowed " << noise);
+	// the second point against the reference too
+	VCLOSE(c, a <= 100 ? "P2_vs_reference_a_le_100" : "P2_vs_reference_a_gt_100", P2, (double) ref::gamma_p(a, x2), acc, "GammaP(" << x2 << "," << a << ")");
 	// Upper + Lower = Gamma
 	if(a <= 170.0)
 	{
 		double up = 0, lo = 0, g = 0;
 		VMUST_RETURN("Upper/Lower_Incomplete_Gamma", up = Upper_Incomplete_Gamma(x, a); lo = Lower_Incomplete_Gamma(x, a); g = Gamma(a));
-		VCLOSE(c, "upper_plus_lower", (up + lo) / g, 1.0, 8 * EPS, "Upper+Lower=Gamma at x=" << x << " a=" << a);
+		VCLOSE(c, "upper_plus_lower", (up + lo) / g, 1.0, 2 * acc + 8 * EPS, "Upper+Lower=Gamma at x=" << x << " a=" << a);
 		long double tg = ref::tgamma((long double) a), lg = fabsl(ref::lgamma((long double) a));
 		double tolg	   = (double) tg * (acc + 64 * EPS * std::max(1.0, (double) lg));
 		VCLOSE(c, "lower_vs_reference", lo, (double) (tg * rp), tolg, "Lower_Incomplete_Gamma(" << x << "," << a << ")");
@@ -236,7 +263,15 @@ VCLAUSE(incomplete_gamma, 20, 30000, 800000, "point within the switch-over neigh
 VCLAUSE(inverse_gamma, 20, 12000, 300000, "p within 1e-3 of 0 or 1, or a<1, or a>100")
 {
 	Src& s = c.s;
-	double a = s.pick({5, 1, 1}) == 0 ? std::pow(10.0, s.uniform(-3, 4)) : (s.coin() ? 100.0 + s.sign() * std::pow(10.0, s.uniform(-6, 0.3)) : (double) s.range(1, 120));
+	double a;
+	switch(s.pick({10, 2, 2, 2, 1}))
+	{
+		case 0: a = std::pow(10.0, s.uniform(-3, 4)); break;
+		case 1: a = 100.0 + s.sign() * std::pow(10.0, s.uniform(-6, 0.3)); break;
+		case 2: a = (double) s.range(1, 120); break;
+		case 3: a = std::pow(10.0, s.uniform(2, 4)); break;		  // large a, where the far tails underflow the density (D16, D22)
+		default: a = std::pow(10.0, s.uniform(-8, -3)); break;	  // the small end of (0,1e4]
+	}
 	double p;
 	int pm = s.pick({2, 2, 2});
 	if(pm == 0)
@@ -266,6 +301,10 @@ VCLAUSE(inverse_gamma, 20, 12000, 300000, "p within 1e-3 of 0 or 1, or a<1, or a
 	}
 	long double back = useQ ? ref::gamma_q(a, x) : ref::gamma_p(a, x);
 	double acc		 = a <= 100.0 ? 1e-7 : 2e-3;
+	// the statement's own wording: P(Inv_GammaP(p,a),a)=p with the library's P, to 1e-7 (a<=100) / 1e-3 (a>100)
+	double self = 0;
+	VMUST_RETURN("GammaP/GammaQ at the inverse", self = useQ ? GammaQ(x, a) : GammaP(x, a));
+	VCLOSE(c, a <= 100 ? "inverse_roundtrip_library_P_a_le_100" : "inverse_roundtrip_library_P_a_gt_100", self, p, a <= 100.0 ? 1e-7 : 1e-3, (useQ ? "GammaQ" : "GammaP") << "(Inv(" << p << "," << a << ")=" << x << ") evaluated with the library");
 	VCLOSE(c, a <= 100 ? "inverse_roundtrip_a_le_100" : "inverse_roundtrip_a_gt_100", (double) back, p, acc, (useQ ? "Q" : "P") << "(Inv(" << p << "," << a << ")=" << x << ") evaluated with the reference");
 	if(c.s.chance(0.03))
 	{
